@@ -20,8 +20,8 @@ package main
 // treated as before.
 
 import (
-	"go/constant"
 	"fmt"
+	"go/constant"
 	"go/token"
 	"go/types"
 	"os"
@@ -49,13 +49,14 @@ type corrMember struct {
 	pol   bool // truth of the class condition on successor edge 0
 }
 
-const corrMaxPhis = 8
+const corrMaxPhis = 12
 
 // pathFacts: what a path has established so far: the truth of the condition classes (two bits per class) and, for the
 // tracked phis, through which incoming edge the path last entered the phi's block (index+1; 0 unknown).
 type pathFacts struct {
-	bits uint32
-	sel  [corrMaxPhis]int8
+	bits   uint32
+	sel    [corrMaxPhis]int8
+	passed bool // the path has taken the edge PathQ.MustEdge
 }
 
 type corrInfo struct {
@@ -65,6 +66,9 @@ type corrInfo struct {
 	tphis      []*ssa.Phi                 // phis some of whose incoming values are constants and that decide branches
 	tphiIdx    map[*ssa.Phi]int
 	tphiBlocks map[*ssa.BasicBlock][]int
+	valClass   map[ssa.Value]int // value -> class "this value is non-nil" (values carried by tracked phis)
+	cur        *pathFacts        // the facts of the path being extended (set by CanReach around the goal callback)
+	at         *ssa.BasicBlock   // the block whose terminating test is being evaluated (set by CanReach around evalCond)
 }
 
 var corrCache = map[*ssa.Function]*corrInfo{}
@@ -456,6 +460,15 @@ func (ci *corrInfo) trackPhis(f *ssa.Function) {
 			}
 		}
 	}
+	// further phis (result variables that are stored or returned rather than tested): tracked while there is room
+	for _, b := range f.Blocks {
+		for _, in := range b.Instrs {
+			if p, ok := in.(*ssa.Phi); ok && !relevant[p] {
+				relevant[p] = true
+				order = append(order, p)
+			}
+		}
+	}
 	isConstLike := func(v ssa.Value) bool {
 		for {
 			switch x := v.(type) {
@@ -504,6 +517,57 @@ func (ci *corrInfo) trackPhis(f *ssa.Function) {
 		ci.tphiIdx[p] = len(ci.tphis)
 		ci.tphiBlocks[p.Block()] = append(ci.tphiBlocks[p.Block()], len(ci.tphis))
 		ci.tphis = append(ci.tphis, p)
+	}
+	// a tracked phi can also carry a value that some branch tested against nil (`err = pingErr` below `if pingErr != nil`):
+	// the outcome of that test is remembered along the path like a condition tested twice
+	ci.valClass = map[ssa.Value]int{}
+	for _, p := range ci.tphis {
+		for _, e := range p.Edges {
+			v := e
+			for {
+				if ct, ok := v.(*ssa.ChangeType); ok {
+					v = ct.X
+					continue
+				}
+				break
+			}
+			if _, isConst := v.(*ssa.Const); isConst {
+				continue
+			}
+			if _, isPhi := v.(*ssa.Phi); isPhi {
+				continue
+			}
+			switch v.Type().Underlying().(type) {
+			case *types.Pointer, *types.Interface, *types.Chan, *types.Signature, *types.Map, *types.Slice:
+			default:
+				continue
+			}
+			if _, done := ci.valClass[v]; done {
+				continue
+			}
+			edges := nonNilEdgesRaw(f, v)
+			if len(edges) == 0 || len(ci.classes) >= corrMaxClasses {
+				continue
+			}
+			cl := len(ci.classes)
+			cc := &corrClass{key: "nonnil:" + v.Name(), leafDefs: map[ssa.Instruction]bool{}}
+			if in, ok := v.(ssa.Instruction); ok && in.Parent() == f {
+				cc.leafDefs[in] = true
+			}
+			used := false
+			for _, ed := range edges {
+				if _, taken := ci.members[ed.B]; taken {
+					continue
+				}
+				ci.members[ed.B] = corrMember{class: cl, pol: ed.K == 0}
+				cc.members++
+				used = true
+			}
+			if used {
+				ci.classes = append(ci.classes, cc)
+				ci.valClass[v] = cl
+			}
+		}
 	}
 }
 
@@ -571,11 +635,35 @@ func (ci *corrInfo) evalVal(v ssa.Value, st *pathFacts, depth int) evalRes {
 	case *ssa.Alloc, *ssa.MakeClosure, *ssa.Function, *ssa.MakeChan, *ssa.MakeMap, *ssa.MakeSlice:
 		return evalRes{kind: 3}
 	}
+	if cl, ok := ci.valClass[v]; ok {
+		switch corrGet(st.bits, cl) {
+		case 2:
+			return evalRes{kind: 3}
+		case 1:
+			return evalRes{kind: 2}
+		}
+	}
 	if curCtx != nil && depth < 3 {
 		switch v.Type().Underlying().(type) {
 		case *types.Pointer, *types.Interface, *types.Chan, *types.Signature, *types.Map, *types.Slice:
 			if curCtx.knownNonNil(v, map[ssa.Value]bool{}) {
 				return evalRes{kind: 3}
+			}
+			// decided by a nil test all of whose paths to the block being left pass one of its edges
+			if ci.at != nil {
+				if in, ok := v.(ssa.Instruction); ok && in.Parent() == ci.at.Parent() {
+					for _, e := range nonNilEdgesRaw(ci.at.Parent(), v) {
+						for k := 0; k < 2; k++ {
+							dst := e.B.Succs[k]
+							if len(dst.Preds) == 1 && dst.Dominates(ci.at) {
+								if k == e.K {
+									return evalRes{kind: 3}
+								}
+								return evalRes{kind: 2}
+							}
+						}
+					}
+				}
 			}
 		}
 	}
@@ -655,4 +743,47 @@ func (ci *corrInfo) evalCond(v ssa.Value, st *pathFacts, depth int) (bool, bool)
 		}
 	}
 	return false, false
+}
+
+// constsAlong: the constant values v takes at instruction `at` on the paths from the function's entry that take edge e
+// (and do not pass an instruction satisfying stop after it); ok is false when some such path leaves v undetermined.
+func constsAlong(f *ssa.Function, e ifEdge, at ssa.Instruction, v ssa.Value, stop func(ssa.Instruction) bool) (vals []int64, ok bool) {
+	ci := corrOf(f)
+	ok = true
+	seen := map[int64]bool{}
+	reached := false
+	q := PathQ{MustEdge: &e, BlockInstr: stop}
+	canReachFrom(f, nil, nil, -1, func(in ssa.Instruction) bool {
+		if in != at {
+			return false
+		}
+		reached = true
+		if k, isK := constInt(v); isK {
+			if !seen[k] {
+				seen[k] = true
+				vals = append(vals, k)
+			}
+			return false
+		}
+		if ci.cur == nil {
+			ok = false
+			return false
+		}
+		r := ci.evalVal(v, ci.cur, 0)
+		if r.kind != 1 || r.val.Kind() != constant.Int {
+			ok = false
+			return false
+		}
+		k, exact := constant.Int64Val(r.val)
+		if !exact {
+			ok = false
+			return false
+		}
+		if !seen[k] {
+			seen[k] = true
+			vals = append(vals, k)
+		}
+		return false
+	}, q)
+	return vals, ok && reached
 }
